@@ -577,9 +577,10 @@ impl Exec {
                 rs: t.get_remote_static().map(<[u8]>::to_vec),
                 send_n: t.sending_nonce(),
                 recv_n: t.receiving_nonce(),
+                fp: t.verif_fingerprint(),
                 ..Default::default()
             },
-            RealEnd::S(t) => Getters { phase: 2, initiator: t.is_initiator(), rs: t.get_remote_static().map(<[u8]>::to_vec), ..Default::default() },
+            RealEnd::S(t) => Getters { phase: 2, initiator: t.is_initiator(), rs: t.get_remote_static().map(<[u8]>::to_vec), fp: t.verif_fingerprint(), ..Default::default() },
             RealEnd::Gone => Getters { phase: 3, ..Default::default() },
         }
     }
